@@ -23,7 +23,7 @@ ran=()
 if go build ./... 2>/dev/null && go test -vet=off -count=1 -timeout 25m ./... > /tmp/adopt-$PROP-$X.suite 2>&1; then suite=pass; else suite=fail; fi
 if [ $suite = fail ] && go build ./... 2>/dev/null; then
   # the suite has timing-based tests that fail now and then on a loaded machine: the failing packages get two more runs
-  pk=$(grep -E '^(FAIL|---)' /tmp/adopt-$PROP-$X.suite | grep -oE 'github.com/orbs-network/lean-helix-go[^ ]*' | sort -u | sed 's|github.com/orbs-network/lean-helix-go|.|')
+  pk=$(grep -E '^(FAIL|---)' /tmp/adopt-$PROP-$X.suite | grep -oE 'github.com/orbs-network/lean-helix-go[^[:space:]]*' | sort -u | sed 's|github.com/orbs-network/lean-helix-go|.|')
   if [ -n "$pk" ] && go test -vet=off -count=1 -timeout 25m $pk > /tmp/adopt-$PROP-$X.suite2 2>&1 && go test -vet=off -count=1 -timeout 25m $pk >> /tmp/adopt-$PROP-$X.suite2 2>&1; then suite=pass; ran+=("suite: a package failed once on the loaded machine and passed twice when re-run: $pk"); fi
 fi
 ran+=("suite with change: $suite")
